@@ -83,6 +83,8 @@ def main():
         if os.path.exists(d + "patch.diff"):
             jobs.append({"id": os.path.basename(d.rstrip("/")), "kind": "preserving", "dir": d.rstrip("/"),
                          "checks": ["C05", "C08", "C09", "C10", "C11"]})
+    # property-preserving changes first: a false alarm is the more urgent news
+    jobs.sort(key=lambda j: (j["kind"] != "preserving", j["id"]))
     q = queue.Queue()
     for j in jobs:
         q.put(j)
